@@ -3559,6 +3559,11 @@ namespace awkward {
               }
               // Forth (gforth, at least) does floor division; C++ does integer division.
               // This makes a difference for negative numerator or denominator.
+              if (pair[1] == -1) {
+                // the most negative integer divided by -1 overflows (SIGFPE); negate with wrap-around instead
+                pair[0] = (T)(0 - (uint64_t)pair[0]);
+                break;
+              }
               T tmp = pair[0] / pair[1];
               pair[0] = tmp * pair[1] == pair[0] ? tmp : tmp - ((pair[0] < 0) ^ (pair[1] < 0));
               break;
@@ -3576,7 +3581,8 @@ namespace awkward {
               }
               // Forth (gforth, at least) does modulo; C++ does remainder.
               // This makes a difference for negative numerator or denominator.
-              pair[0] = (pair[1] + (pair[0] % pair[1])) % pair[1];
+              T rem = (pair[1] == -1 ? 0 : pair[0] % pair[1]);
+              pair[0] = (rem != 0  &&  ((rem < 0) != (pair[1] < 0))) ? rem + pair[1] : rem;
               break;
             }
 
@@ -3592,11 +3598,18 @@ namespace awkward {
                 return;
               }
               // See notes on division and modulo/remainder above.
+              if (two == -1) {
+                // see CODE_DIV: avoid the overflow trap of the most negative integer divided by -1
+                stack_buffer_[stack_depth_ - 1] = (T)(0 - (uint64_t)one);
+                stack_buffer_[stack_depth_ - 2] = 0;
+                break;
+              }
               T tmp = one / two;
               stack_buffer_[stack_depth_ - 1] =
                   tmp * two == one ? tmp : tmp - ((one < 0) ^ (two < 0));
+              T rem = one % two;
               stack_buffer_[stack_depth_ - 2] =
-                  (two + (one % two)) % two;
+                  (rem != 0  &&  ((rem < 0) != (two < 0))) ? rem + two : rem;
               break;
             }
 
